@@ -662,6 +662,10 @@ func cpuGenHalt(c *ctx, x *cpuRun) {
 					}
 					for _, idle := range idles {
 						rs := randRegs(r)
+						if r.chance(6) {
+							// the wake-up dispatch pushes onto IE / IF
+							rs.sp = []uint16{0x0000, 0x0001, 0x0002, 0xff0f, 0xff10, 0xff11}[r.intn(6)]
+						}
 						// bytes the follower does not consume are executed (and with the halt bug the second byte
 						// of a CB follower is executed again as a plain opcode): keep them harmless
 						_, _ = fixOperands(r, false, op, &rs)
@@ -706,8 +710,10 @@ func cpuGenHalt(c *ctx, x *cpuRun) {
 						for k := 0; k < 10; k++ {
 							x.do("c 1")
 						}
-						x.do(fmt.Sprintf("peek %04x", rs.sp-1))
-						x.do(fmt.Sprintf("peek %04x", rs.sp-2))
+						if !(rs.sp <= 2 || rs.sp >= 0xff00) { // IE / IF are in the state line; other I/O is not in this mode's model
+							x.do(fmt.Sprintf("peek %04x", rs.sp-1))
+							x.do(fmt.Sprintf("peek %04x", rs.sp-2))
+						}
 						c.class(fmt.Sprintf("halt/i%d/p%d/%d%02x/idle%d", ime, pend, pre, op, minInt(idle, 3)))
 					}
 				}
